@@ -105,6 +105,15 @@ func yieldEverywhere(pkgPath, rel string) bool {
 	return false
 }
 
+// noYieldFuncs are left without yields although their file is in the
+// "everywhere" set: their control flow depends on lazily grown process-global
+// buffers (Printer.appendTree grows the shared indentation buffer the first
+// time a deeper indentation is needed), which would make the number of
+// scheduling points of a case depend on what the process did before.
+var noYieldFuncs = map[string]bool{
+	"slip.Printer.appendTree": true,
+}
+
 type overlayJSON struct {
 	Replace map[string]string
 }
@@ -361,14 +370,20 @@ func (rw *rewriter) run() {
 				}
 				key += tn.Name.Name
 				mode := yieldFuncs[key]
-				if mode == "" && yieldEverywhere(rw.pkg.PkgPath, rw.rel) {
-					mode = "stmts"
+				if mode == "" && yieldEverywhere(rw.pkg.PkgPath, rw.rel) && !noYieldFuncs[key] {
+					mode = "stmts-noloops"
 				}
 				switch mode {
 				case "entry":
 					entry[tn.Body] = true
 				case "stmts":
-					rw.markYield(tn.Body)
+					rw.markYield(tn.Body, true)
+				case "stmts-noloops":
+					// Loops in these files walk global tables whose size depends on
+					// what the process has done before; yields inside them would
+					// make the number of scheduling points of a case depend on the
+					// cases executed earlier (found by the determinism self-test).
+					rw.markYield(tn.Body, false)
 				}
 			}
 			return true
@@ -409,13 +424,20 @@ func (rw *rewriter) run() {
 
 // markYield marks every block nested in b (except map ranges and function
 // literals) for statement-level yields.
-func (rw *rewriter) markYield(b *ast.BlockStmt) {
+func (rw *rewriter) markYield(b *ast.BlockStmt, loops bool) {
 	skip := map[*ast.BlockStmt]bool{}
 	ast.Inspect(b, func(n ast.Node) bool {
 		switch tn := n.(type) {
 		case *ast.FuncLit:
 			return false
+		case *ast.ForStmt:
+			if !loops {
+				return false
+			}
 		case *ast.RangeStmt:
+			if !loops {
+				return false
+			}
 			if t := rw.info.TypeOf(tn.X); t != nil {
 				if _, ok := t.Underlying().(*types.Map); ok {
 					return false
